@@ -22,11 +22,12 @@ EXTENDS UpdogCore
 CONSTANTS ServerFollowsFile    \* negative control: the server re-reads the path for every request
 
 VARIABLES file,     \* [kind : "absent" | "index" | "other", rows, gen] : gen tells files created at different times apart
-          srv,      \* [up, rows, gen, cache, preload] : the server process, the rows it loaded and the file it holds open
+          srv,      \* [up, rows, gen, cache, preload, execs] : the server process, the rows it loaded, the file it holds open,
+                    \* and the number of Execute calls it has made (its /metrics page shows it)
           term      \* [cmd, exit, out] : what the terminal shows after the last command
 
 AbsentF == [kind |-> "absent", rows |-> <<>>, gen |-> 0]
-Down    == [up |-> FALSE, rows |-> <<>>, gen |-> 0, cache |-> FALSE, preload |-> FALSE]
+Down    == [up |-> FALSE, rows |-> <<>>, gen |-> 0, cache |-> FALSE, preload |-> FALSE, execs |-> 0]
 T(c, x, o) == [cmd |-> c, exit |-> x, out |-> o, args |-> <<>>]
 TA(c, x, o, a) == [cmd |-> c, exit |-> x, out |-> o, args |-> a]
 
@@ -83,19 +84,25 @@ Schema(full) ==
 ServerStart(cache, preload) ==
   /\ ~srv.up
   /\ IF file.kind = "index"
-     THEN srv' = [up |-> TRUE, rows |-> file.rows, gen |-> file.gen, cache |-> cache, preload |-> preload] /\ term' = T("server", 0, <<>>)
+     THEN srv' = [up |-> TRUE, rows |-> file.rows, gen |-> file.gen, cache |-> cache, preload |-> preload, execs |-> 0] /\ term' = T("server", 0, <<>>)
      ELSE srv' = srv /\ term' = T("server", 1, <<>>)
   /\ UNCHANGED <<file, gens>>
 ServerStop == srv.up /\ srv' = Down /\ term' = T("stop", 0, <<>>) /\ UNCHANGED <<file, gens>>
 
 Served == IF ServerFollowsFile THEN file.rows ELSE srv.rows
 
+\* the server executes the queries of a batch in order and stops at the first one that fails
+Executed(rows, qs) == LET bad == {i \in DOMAIN qs : ~Answer(rows, qs[i]).ok} IN
+                      IF bad = {} THEN Len(qs) ELSE CHOOSE i \in bad : \A j \in bad : i <= j
+
 \* updog client q1 q2 ... : all queries are parsed first; one failing query fails the whole call, nothing is printed
 Client(qs) ==
   /\ LET ok == /\ qs # <<>> /\ \A i \in DOMAIN qs : qs[i].kind = "q"
                /\ srv.up /\ \A i \in DOMAIN qs : Answer(Served, qs[i]).ok
-     IN term' = IF ok THEN TA("client", 0, [i \in DOMAIN qs |-> ClientBlock(i, Answer(Served, qs[i]))], qs) ELSE TA("client", 1, <<>>, qs)
-  /\ UNCHANGED <<file, srv, gens>>
+         sent == qs # <<>> /\ (\A i \in DOMAIN qs : qs[i].kind = "q") /\ srv.up     \* the batch reaches the server
+     IN /\ term' = IF ok THEN TA("client", 0, [i \in DOMAIN qs |-> ClientBlock(i, Answer(Served, qs[i]))], qs) ELSE TA("client", 1, <<>>, qs)
+        /\ srv' = IF sent THEN [srv EXCEPT !.execs = @ + Executed(Served, qs)] ELSE srv
+  /\ UNCHANGED <<file, gens>>
 
 \* updog driver -d dsn q1 q2 ... : one table per query, in order, up to the first failing query
 Good(rows, usable, qs) == {n \in 0..Len(qs) : \A i \in 1..n : usable /\ Answer(rows, qs[i]).ok}
@@ -103,10 +110,20 @@ Driver(via, qs) ==
   /\ LET usable == IF via = "file" THEN file.kind = "index" ELSE srv.up
          rows   == IF via = "file" THEN file.rows ELSE Served
          n      == CHOOSE m \in Good(rows, usable, qs) : \A k \in Good(rows, usable, qs) : k <= m
-     IN term' = IF via = "file" /\ Locked /\ qs # <<>>        \* the connection is opened (and waits) before the first query is parsed
+     IN /\ term' = IF via = "file" /\ Locked /\ qs # <<>>        \* the connection is opened (and waits) before the first query is parsed
                 THEN TA("driver", Blocked, <<>>, [via |-> via, qs |-> qs])
                 ELSE TA("driver", IF qs # <<>> /\ n = Len(qs) THEN 0 ELSE 1,
                         [i \in 1..n |-> DriverTable(Answer(rows, qs[i]), qs[i].gb)], [via |-> via, qs |-> qs])
+        \* over gRPC every query is one request; a query the driver cannot parse is never sent
+        /\ srv' = IF via = "grpc" /\ srv.up
+                  THEN [srv EXCEPT !.execs = @ + n + (IF n < Len(qs) /\ qs[n + 1].kind = "q" THEN 1 ELSE 0)]
+                  ELSE srv
+  /\ UNCHANGED <<file, gens>>
+
+\* GET /metrics on the server's debug address: the Execute histogram has counted every Execute call; the four cache
+\* counters exist exactly when the cache is enabled
+Metrics ==
+  /\ term' = IF srv.up THEN T("metrics", 0, [execs |-> srv.execs, cache |-> srv.cache]) ELSE T("metrics", 1, <<>>)
   /\ UNCHANGED <<file, srv, gens>>
 
 (* ------------------------------ properties ------------------------------ *)
@@ -124,6 +141,8 @@ DriverAnswers ==
   (term.cmd = "driver" /\ term.args.via = "grpc" /\ Len(term.out) > 0) =>
      srv.up /\ \A i \in DOMAIN term.out : term.out[i] = DriverTable(ExecSpec(srv.rows, term.args.qs[i].e, term.args.qs[i].gb), term.args.qs[i].gb)
 ExitStatus == term.exit \in {0, 1, Blocked}
+\* the Execute counter of a running server never goes back
+ExecsMonotone == [][(srv.up /\ srv'.up) => srv'.execs >= srv.execs]_svars
 \* nobody waits for a lock unless a server is running
 BlockedOnlyByServer == term.exit = Blocked => srv.up
 =============================================================================
